@@ -577,6 +577,14 @@ func casesForSpec(ps []UParam, f func(UCase)) {
 	n := len(ps)
 	names := append(append([]string{}, uNames[:n]...), "u")
 	shapes := kwShapes(names)
+	if n > 0 {
+		// keyword names that spell a parameter's spec string ("x?", "x??"): they reach a
+		// built-in through a ** mapping or starlark.Call, and name no parameter
+		for _, nm := range names[:n] {
+			shapes = append(shapes, []string{nm + "?"}, []string{nm + "??"}, []string{"*" + nm}, []string{nm + " "})
+		}
+		shapes = append(shapes, []string{names[0], names[0] + "?"})
+	}
 	for k := 0; k <= n+1; k++ {
 		var posVecs [][]int
 		if k > n {
